@@ -630,6 +630,12 @@ func (m *mappedFile) entryAt(off uint32) (name []byte, next uint32, v *atomic.Ui
 	if off < m.hdrLen+hashOff || int64(off)+16 > dataLen {
 		return nil, 0, nil, false
 	}
+	if off%recordUnit != 0 {
+		// Records are aligned (see place). A misaligned offset is corrupt,
+		// and its 64-bit value could not be accessed atomically on 32-bit
+		// platforms.
+		return nil, 0, nil, false
+	}
 	nameLen := m.load32(off+8) & 0x00ffffff
 	if nameLen == 0 || int64(off)+16+int64(nameLen) > dataLen {
 		return nil, 0, nil, false
